@@ -13,8 +13,8 @@ THREADS = 3
 RULE = ('one case = one real `-T file --threads k [-j]` run over a list of 2-4 targets mixing healthy scripted servers with one (thorough: also two) failing target(s) of each failure archetype: unresolvable name, refused connection, '
         'silent after accept, closes before / after its banner, garbage banner, bad block size, SSH-1 bad CRC, truncated KEXINIT, wrong first packet, garbage in the probe phase - in every list position, with --threads 1, 2, n and 32, in text and JSON.  '
         'Oracle: number of result blocks (text: 80-dash separated; JSON: array elements) == number of targets; every healthy target\'s block equals its single-target result; exit status == highest ranked single-target status '
-        '(255 > 1 > 3 > 2 > 0); with -j the whole stdout is one JSON array.  Non-trivial: the failing target was reached (peer log / resolver error) and >= 1 healthy block was compared; distinct = distinct (target list, threads, format)')
-REQUIRED = {'multi_runs': 60, 'healthy_blocks_compared': 100, 'failure_reached': 50, 'status_rank_checks': 60, 'json_runs': 20}
+        '(255 > 1 > 3 > 2 > 0), also for lists holding one target of each status class (connection error, failure, warning, good) in every order of completion; with -j the whole stdout is one JSON array.  Non-trivial: the failing target was reached (peer log / resolver error) and >= 1 healthy block was compared; distinct = distinct (target list, threads, format)')
+REQUIRED = {'rank_order_runs': 24, 'multi_runs': 60, 'healthy_blocks_compared': 100, 'failure_reached': 50, 'status_rank_checks': 60, 'json_runs': 20}
 ASSUMPTIONS = ['-v / -d are not part of the quantifier (they print progress lines by design)',
                'per-target statuses for the rank oracle come from single-target runs of the same scripted servers']
 MANIFEST = {
@@ -49,6 +49,17 @@ def cases(tier, seed):
                     cs.append({'targets': names, 'threads': th, 'fmt': fmt})
     for fmt in ('text', 'json'):
         cs.append({'targets': ['clean', 'terrapin', 'rsa1024'], 'threads': 2, 'fmt': fmt})
+    # rank of the statuses: targets of all four status classes (connection error 1 > failure 3 > warning 2 > good 0) in every order of completion (--threads 1: completion order == file order)
+    classes = ['!refused', 'rsa1024', 'warn-only', 'good-only']
+    i = 0
+    for n in ((3,) if tier == 'quick' else (2, 3, 4)):
+        for perm in itertools.permutations(classes, n):
+            i += 1
+            cs.append({'targets': list(perm), 'threads': 1, 'fmt': 'json' if i % 3 == 0 else 'text', 'rank': True})
+    for perm in (rng.sample(list(itertools.permutations(classes, 4)), 6) if tier == 'quick' else []):
+        cs.append({'targets': list(perm), 'threads': 1, 'fmt': 'text', 'rank': True})
+    for perm in itertools.permutations(['!early-close', 'warn-only', 'terrapin'], 3):
+        cs.append({'targets': list(perm), 'threads': 1, 'fmt': 'text', 'rank': True})
     return cs
 
 
@@ -109,6 +120,8 @@ def run_case(c):
                 singles.append(c07.single(n, c['fmt'])[0])
         want_status = max(singles, key=lambda s: RANK.get(s, 5))
         counters['status_rank_checks'] = 1
+        if c.get('rank'):
+            counters['rank_order_runs'] = 1
         if r.status != want_status:
             viol.append(_v('C08/status-rank:%s:got%s-want%s' % (tag, r.status, want_status), 'exit status of the run is not the highest ranked status among its targets', singles=singles, got=r.status, out_tail=(r.out + r.err)[-300:]))
         # ------------------------------------------------------------ structure
